@@ -279,6 +279,20 @@ func genC08edges(g *Gen) {
 		s.op("stop")
 		s.emit(g)
 	}
+	// a StartTLS whose handshake fails (the client sends something that is no ClientHello) while
+	// an earlier handler of the connection is still running: the socket stays open until it is done
+	{
+		s := newScen("fixed")
+		s.op("run 1 1")
+		s.op("connect")
+		s.send(0, s.req("normal", "b5", "w"))
+		s.send(0, s.req("starttls", "w", "hs"))
+		s.send(0, "bad")
+		s.op("release 5")
+		s.op("close 0")
+		s.op("stop")
+		s.emit(g)
+	}
 	for _, how := range []string{"reset", "close"} {
 		s := newScen("fixed")
 		s.op("run 1 1")
